@@ -71,6 +71,8 @@ def programs(tier):
         out.append((f"min-makespan/incremental/max_iter={mi}", P(*base2, new("ObjectiveMinimizeMakespan", "o")), kw, menu2, 4))
     out.append(("max-startlatest/incremental", P(fixed("a", 1), fixed("b", 1), new("ObjectiveTasksStartLatest", "o"), H=2), {}, [["start", "a"]], 4))
     out.append(("max-startlatest/incremental/max_iter=1", P(fixed("a", 1), fixed("b", 1), new("ObjectiveTasksStartLatest", "o"), H=2), {"max_iter": 1}, [["start", "a"]], 4))
+    out.append(("max-bounded-indicator/incremental", P(fixed("a", 1), new("IndicatorFromMathExpression", "i", name="i", expression=E(["start", "a"]), bounds=(0, 2)),
+                                                      new("ObjectiveMaximizeIndicator", "o", target=R("i")), H=3), {}, [["start", "a"]], 4))
     out.append(("min-flowtime/incremental", P(*base2, new("ObjectiveMinimizeFlowtime", "o")), {}, menu2, 4))
     out.append(("min-makespan/optimize", P(*base2, new("ObjectiveMinimizeMakespan", "o")), {"optimizer": "optimize"}, menu2, 4))
     out.append(("max-startlatest/optimize", P(fixed("a", 1), fixed("b", 1), new("ObjectiveTasksStartLatest", "o"), H=2), {"optimizer": "optimize"}, [["start", "a"]], 4))
@@ -148,7 +150,8 @@ def job(j):
                     continue
                 if L <= 2:
                     try:
-                        with boot.quiet():
+                        import contextlib
+                        with (boot.no_fd2() if skw.get("debug") else contextlib.nullcontext()), boot.quiet():
                             s2 = ps.SchedulingSolver(problem=b.pb, **dict(skw, max_time=30))
                             r2 = s2.solve()
                         if not r2 and leaves:
@@ -209,7 +212,7 @@ def replay(inst):
                     why = (len(obs), "second solver on the same problem reports no solution")
             except Exception as ex_:
                 why = (len(obs), f"second solver on the same problem raised {type(ex_).__name__}")
-    print(json.dumps({"violation": why, "observations": [dict(o, timing=list(o["timing"]) if o.get("timing") else None) for o in obs]}, default=list)[:3000])
+    print(json.dumps({"violation": why, "observations": [[o["ev"][0], o["kind"], str(o.get("timing"))[:160]] for o in obs]}, default=list))
     return 1 if why else 0
 
 
